@@ -22,7 +22,7 @@ Theorem C16_filter_commutes :
   /\ read_lines render rs_init filtered = (filter (keep pred) ls, [], EndOk, rsf)
   /\ (exists qs, scan filtered = (qs, SEof) /\
         filter is_special_payload qs = filter is_special_payload (concat chunks)).
-Proof. exact filter_commutes_gen. Qed.
+Proof. generalize (eq_refl : SrcFacts.filter_erases_on_fail = true). generalize SrcFacts.filter_erases_on_fail. intros b_ ->. exact filter_commutes_gen. Qed.
 Print Assumptions C16_filter_commutes.
 
 (** The same statement is false of a filter that never forgets an id (the tree before the D1 fix). *)
@@ -32,7 +32,7 @@ Print Assumptions C16_without_erase_refuted.
 
 (** Non-vacuity: the witness stream meets the hypotheses and the conclusion is about two real events. *)
 Example C16_nonvacuous : filtered_text SrcFacts.filter_erases_on_fail = expected_text /\ expected_text <> [].
-Proof. split; [exact filter_with_erase_witness_ok | vm_compute; discriminate]. Qed.
+Proof. generalize (eq_refl : SrcFacts.filter_erases_on_fail = true). generalize SrcFacts.filter_erases_on_fail. intros b_ ->. split; [exact filter_with_erase_witness_ok | vm_compute; discriminate]. Qed.
 
 (** the filter model writes entry by entry, like the code *)
 Example C16_srcfact_per_entry : SrcFacts.filter_writes_per_entry = true.
